@@ -374,9 +374,12 @@ pub fn resolve_indirection(
         sv.version.clone()
     };
 
+    // NOTE: bypass the tree's blob cache, a cached blob would hide a dangling pointer
+    let cache = crate::Cache::with_capacity_bytes(0);
+
     let folder = tree.config.path.join(crate::file::BLOBS_FOLDER);
     crate::vlog::Accessor::new(&version.blob_files)
-        .get(tree.id, &folder, key, &ind.vhandle, &tree.config.cache)
+        .get(tree.id, &folder, key, &ind.vhandle, &cache)
         .map(|v| v.map(|x| x.to_vec()))
 }
 
